@@ -55,7 +55,7 @@ def seq_eq(a, b):
         terms.append(zb(e))
     if not terms:
         return True
-    return mkbool(z3.And(*terms) if len(terms) > 1 else terms[0])
+    return mkbool(z3.And(*terms) if len(terms) > 1 else terms[0], simp=False)
 
 
 def _idx(i, n):
